@@ -64,6 +64,13 @@ Theorem C03_code_ensure_test : forall completed value,
 Proof. exact gen_ensure_test. Qed.
 Print Assumptions C03_code_ensure_test.
 
+(* `if exitcode is None: exitcode = EX_FAILURE if exc else EX_OK` in Worker._do_exit *)
+Theorem C03_code_do_exit_code : forall (recorded : option Z) (exc : bool),
+    K_worker.do_exit_code tt (optv recorded) (if exc then PBool true else PNone) =
+    Ok (PInt (Worker.do_exit_code recorded exc)) tt.
+Proof. exact gen_do_exit_code. Qed.
+Print Assumptions C03_code_do_exit_code.
+
 (* ------------------------------------------------------------ 2. the worker loop *)
 
 (* Message grammar.  For every configuration and every input script: the protocol events
@@ -201,6 +208,19 @@ Theorem C03_ensure_gets_completed : forall c ins,
     w_ensure c ins = ensure (counter c) (w_completed c ins).
 Proof. exact w_ensure_eq. Qed.
 Print Assumptions C03_ensure_gets_completed.
+
+(* process exit status (Worker.__call__ / _do_exit; also the DEATH message): with a quota,
+   EX_RECYCLE exactly when workloop returned EX_RECYCLE *)
+Theorem C03_exit_status_recycle : forall c N ins,
+    maxtasks c = Some N -> 1 <= N ->
+    (call_status (w_exit c ins) = EX_RECYCLE <-> w_exit c ins = XReturn EX_RECYCLE).
+Proof. exact call_status_recycle. Qed.
+Print Assumptions C03_exit_status_recycle.
+
+(* observation: the EX_FAILURE carried by the SystemExit of an EOF is lost *)
+Theorem C03_exit_status_sysexit : forall code, call_status (XSysExit code) = EX_OK.
+Proof. exact call_status_sysexit. Qed.
+Print Assumptions C03_exit_status_sysexit.
 
 (* ------------------------------------------------------------ 3. parent side *)
 
